@@ -141,34 +141,38 @@ func c02Key(c *StructCase) string {
 	return string(b)
 }
 
-func TestC02(t *testing.T) {
-	rapid.Check(t, func(t *rapid.T) {
-		c := genC02Case(t)
-		takeGenFlags()
-		if rapid.IntRange(0, 5).Draw(t, "smallCache") == 3 {
-			c.Cache = rapid.IntRange(1, 3).Draw(t, "cacheCap") // the value may hold more struct types than the type cache
-		}
-		msg, res, skipped := checkC02(c)
-		if skipped != "" {
-			ev.Excluded(strings.SplitN(skipped, ":", 2)[0])
-			return
-		}
-		nt := res.Violations >= 2 || res.NonFirstViol || (res.Violations == 0 && res.Satisfied >= 3)
-		ev.Class(fmt.Sprintf("violations=%s", bucket(res.Violations)))
-		ev.Class(fmt.Sprintf("depth=%d", res.MaxDepth))
-		if res.SawMap {
-			ev.Class("has-go-map")
-		}
-		if len(res.Groups) > 0 {
-			ev.Class("has-group-clause")
-		}
-		ev.Class("entry=" + c.Entry)
-		ev.Case(c02Key(c), nt, func() interface{} { return c })
-		if msg != "" {
-			ev.Fail(t, "C02", "walker", c, "%s", msg)
-		}
-	})
+// propC02 is the property; TestC02 drives it with rapid's random generator, FuzzC02Rapid with the coverage-guided
+// native fuzzer (thorough tier: rapid.MakeFuzz turns the fuzzer's bytes into the draws).
+func propC02(t *rapid.T) {
+	c := genC02Case(t)
+	takeGenFlags()
+	if rapid.IntRange(0, 5).Draw(t, "smallCache") == 3 {
+		c.Cache = rapid.IntRange(1, 3).Draw(t, "cacheCap") // the value may hold more struct types than the type cache
+	}
+	msg, res, skipped := checkC02(c)
+	if skipped != "" {
+		ev.Excluded(strings.SplitN(skipped, ":", 2)[0])
+		return
+	}
+	nt := res.Violations >= 2 || res.NonFirstViol || (res.Violations == 0 && res.Satisfied >= 3)
+	ev.Class(fmt.Sprintf("violations=%s", bucket(res.Violations)))
+	ev.Class(fmt.Sprintf("depth=%d", res.MaxDepth))
+	if res.SawMap {
+		ev.Class("has-go-map")
+	}
+	if len(res.Groups) > 0 {
+		ev.Class("has-group-clause")
+	}
+	ev.Class("entry=" + c.Entry)
+	ev.Case(c02Key(c), nt, func() interface{} { return c })
+	if msg != "" {
+		ev.Fail(t, "C02", "walker", c, "%s", msg)
+	}
 }
+
+func TestC02(t *testing.T) { rapid.Check(t, propC02) }
+
+func FuzzC02Rapid(f *testing.F) { f.Fuzz(rapid.MakeFuzz(propC02)) }
 
 func bucket(n int) string {
 	switch {
